@@ -243,11 +243,14 @@ impl Module for M {
          draw_iter-only target, of Clipped and of Cropped]). faults.prefix: ops of the kinds the error-aware target model covers (styled \
          rectangle / circle / ellipse / rounded rectangle, whitespace, images, pixel, pixel iterator, clear) whose result line also carries draw's \
          result and the root's record (calls, calls after error, log length, log digest) of the fault-free run and of fault positions 0, n/2, n-1. \
-         Non-trivial: the fault-free run makes at least 2 calls; distinct = op text."
+         Model side (n = length of the model's call list): every stream except faults.dotted. Non-trivial: the fault-free run makes at least 2 calls; distinct = op text."
     }
 
     fn generate(&self, _pid: &str, tier: Tier, rng: &mut Rng, emit: &mut dyn FnMut(String)) {
         gen_prefix(tier, &mut Rng::new(rng.0 ^ 0x5eed), emit);
+        // `faults.shape arc|sector ..`: trailing hook tokens for the model side (shapes.rs `with_hooks`; never read by `execute`)
+        let mut hooked = |s: String| emit(with_hooks(s));
+        let emit = &mut hooked;
         let quick = tier == Tier::Quick;
         let angles = [(0, 90_000), (30_000, 200_000), (-45_000, -300_000), (10_000, 400_000)];
         let shapes = shape_grid(if quick { 4 } else { 7 }, 3, &angles);
